@@ -55,7 +55,9 @@ impl StandardLinearModel {
             let mut independent_value = 0.0;
             for (row, constraint) in self.constraints.iter().enumerate() {
                 let coeff = constraint.coefficient(column);
-                if float_ne(coeff, 0.0) {
+                //the model's own coefficients are tested exactly: a small coefficient in another row means
+                //that the column is not a unit column and cannot start in the basis
+                if coeff != 0.0 {
                     independent_count += 1;
                     independent_row = row;
                     independent_value = constraint.coefficient(column);
